@@ -35,6 +35,8 @@ def writer_model(ctx, rule="R1"):
         writes = [ev for ev in evs if ev[0] == "write"]
         opens = [(i, ev) for i, ev in enumerate(evs) if ev[0] == "call" and ev[2] == "builtin:open" and ev[5][0] == "ok"]
         ser = [i for i, ev in enumerate(evs) if ev[0] == "call" and ev[2] in ("repo:common.canonserialize", "ext:json.dumps") and ev[5][0] == "ok"]
+        if not writes and _already_there(eng, p, fname, want):
+            continue  # the file was read (binary) and found to hold exactly these bytes: nothing to do
         if len(writes) != 1:
             ok_all, why = False, "%d writes on a returning path (expected exactly one)" % len(writes)
             break
@@ -86,6 +88,21 @@ def loader_model(ctx, rule="R2"):
             break
     ctx.count(rule + ".loader_paths", len(rets))
     ctx.ob(rule, "loader", site.loc(), "load_metadata_from_file " + ("returns json.load(open(fname, 'rb')) with default hooks, unmodified" if ok_all else "deviates: " + why), ok_all)
+
+
+def _already_there(eng, p, fname, want):
+    """the path compared the file's current content, read in binary mode, with the canonical
+    bytes and found them equal"""
+    for f in p.facts:
+        if f[0] != "eq":
+            continue
+        for a, b in ((f[1], f[2]), (f[2], f[1])):
+            if eng.expand(b) == want and is_call(a, "method:read") and len(a[2]) == 1 and is_call(a[2][0], "builtin:open") and a[2][0][2] and _names_file(a[2][0][2][0], fname, writing=False):
+                h = a[2][0]
+                mode = h[2][1] if len(h[2]) > 1 else dict(h[3]).get("mode", C("r"))
+                if is_const(mode) and "b" in str(mode[2]) and "r" in str(mode[2]) and "+" not in str(mode[2]):
+                    return True
+    return False
 
 
 def _names_file(t, fname, writing):
